@@ -89,4 +89,3 @@ func runGateway(dir string, in input) ([]int, bool) {
 	}
 	return out, attached
 }
-
